@@ -85,6 +85,14 @@ func gen(g *mon.Gen) {
 func Build(rng *rand.Rand, client int, fc uint8, size int, exc bool) (packet.Request, specref.Req, []byte, error) {
 	fr := clientx.FramingOf(client)
 	q := libx.LegalReq(rng, fc, []float64{0, 0.5, 1}[size])
+	switch rng.Intn(8) {
+	case 0:
+		q.Unit = 0 // on Modbus TCP unit 0 is ordinary direct addressing (a device answers); gateways use it on RTU links too
+	case 1:
+		q.Unit = 255
+	case 2:
+		q.TID = 0
+	}
 	req, err := libx.NewRequest(fr, q)
 	if err != nil {
 		return nil, q, nil, err
